@@ -55,3 +55,10 @@ silent("C11", "semi-adder-body-allocates-in-helper",
         (SA, "def _semi_adder_resources(x_wires, y_wires, **_):",
              "def _fill(ws, n):\n    if len(ws) < n:\n        ws = ws + list(allocate(n - len(ws), restored=True))\n    return ws\n\n\n"
              "def _semi_adder_resources(x_wires, y_wires, **_):")])
+
+# --- R-C11-exactprop
+fire("C11", "adjoint-wrapper-claims-exact-resources-for-any-base-rule",
+     ("pennylane/ops/op_math/adjoint2.py", "        exact=base_rule.exact_resources,\n", ""),
+     "R-C11-exactprop", "_make_adjoint_decomp")
+silent("C11", "adjoint-wrapper-registered-inexact",
+       [("pennylane/ops/op_math/adjoint2.py", "        exact=base_rule.exact_resources,\n", "        exact=False,\n")])
